@@ -24,6 +24,7 @@ int  vf_self(void);                        // id of the calling thread (-1 outsi
 void vf_gate_wait(void);                   // park until vf_gate_open()
 int  vf_gate_count(void);
 void vf_gate_open(void);
+int  vf_others_idle(void);                 // 1 if every other thread is blocked, parked or finished (e.g. workers asleep)
 
 // ---- nondeterminism
 void vf_window(int on);                    // choice points are generated only while the window is open
